@@ -105,6 +105,7 @@ def step (st : St) (l : Line) : St × Verdict :=
       | "chat", [n, m] => (idOf n).map fun id => ([.chat id m], st)
       | "ladd", [n, ln] => (idOf n).map fun id => ([.lAdd id ln], st)
       | "lremove", [n, ln] => (idOf n).map fun id => ([.lRemove id ln], st)
+      | "lnotify", [ln] => some ([.lNotify ln], st)
       | "register", [] => some ([.register (hex8 (k.agentBase + st.nreg + 1))], { st with nreg := st.nreg + 1 })
       | "dead", [n, i] => (idOf n).bind fun id => i.toNat?.map fun i => ([.dead id (hex8 (k.agentBase + i))], st)
       | "close", [n] => (idOf n).map fun id => ([.fail id, .leave id], st)
